@@ -184,7 +184,16 @@ pub fn compile_trees(opts: &Opts) -> i32 {
         let t = match v.get("t").and_then(json_to_expr) { Some(t) => t, None => { eprintln!("BADTREE {}", js); continue; } };
         let o = v.get("o").and_then(json_to_opts).unwrap_or_default();
         let own_path: Option<Vec<String>> = v.get("path").and_then(from_cps).map(|p| vec![p]);
-        let c = run_compile(&t, &o, own_path.as_ref().unwrap_or(&paths));
+        // with a text "i": the REAL parser reads the text and its result is compiled, while "t" stays the tree
+        // the specification gives for that text -- the program is then judged against what the text means
+        let c = match v.get("i").and_then(from_cps) {
+            Some(input) => match run_parse(&input) {
+                ParseOut::Ok(po, pt) => run_compile(&pt, &po, own_path.as_ref().unwrap_or(&paths)),
+                ParseOut::Err(m) => json!({"st":"err","msg":cps(&m),"at":"parse","t0":digits_str("0"),"t1":digits_str("0")}),
+                ParseOut::Panic(m) => json!({"st":"panic","msg":cps(&m),"at":"parse","t0":digits_str("0"),"t1":digits_str("0")}),
+            },
+            None => run_compile(&t, &o, own_path.as_ref().unwrap_or(&paths)),
+        };
         v["o"] = opts_to_json(&o);
         v["c"] = c;
         // C04: the same construct carrying a benign marker, for the skeleton comparison
@@ -223,9 +232,26 @@ pub fn record_api(opts: &Opts) -> i32 {
             exprs.push(["-mmin -5 -user root", "-atime +3 -nouser", "-ctime 2 -o -regex x"][rng.below(3)].to_string());
             exprs.push("-mmin -5 -o -amin +2".to_string());
         } else if k % 7 == 3 {
-            // user text that looks like a placeholder a renderer might substitute
-            let w = ["{mdt}", "{}", "%s", "{path}", "$mdt", "@MDT@", "__MDT__", "{0}", "~a", "MDT"][((k / 7) % 10) as usize];
-            exprs.push(match rng.below(4) { 0 => format!("-name {}", w), 1 => format!("-name backup-{}.img -print", w), 2 => format!("-type f -fprint /tmp/{}.list", w), _ => format!("-printf 'x{}y\\n' -o -pool {}", w, w) });
+            // user text that looks like a placeholder a renderer might substitute, or that holds the delimiters of
+            // the program text around the slot a renderer fills
+            const W: &[&str] = &["{mdt}", "core\"", "{}", "\"\"", "%s", "x\"\"y", "{path}", "a\\", "$mdt", "\\\"", "@MDT@", "(lipe-scan", "__MDT__",
+                                 "\"/dev/mdt0\"", "{0}", "/dev/mdt0", "~a", "MDT"];
+            let q = |v: String| if v.contains('"') || v.contains('(') { format!("'{}'", v) } else { v };
+            for j in 0..5usize {
+                let w = W[((k as usize / 7) * 5 + j) % W.len()];
+                exprs.push(match (j + rng.below(2)) % 5 {
+                    0 => format!("-name {}", q(w.to_string())),
+                    1 => format!("-name {} -print", q(format!("backup-{}.img", w))),
+                    2 => format!("-type f -fprint {}", q(format!("/tmp/{}.list", w))),
+                    3 => format!("-printf 'x{}y\\n' -o -pool {}", w.replace('\\', "").replace('"', "").replace('%', ""), q(w.to_string())),
+                    // as the LAST characters of a pattern in front of everything else, with a time test behind
+                    _ => format!("-name {} -o -mmin -3", q(w.to_string())),
+                });
+            }
+        } else if k % 13 == 6 {
+            // collections inside ONE argument with repeated members (a set-like container would reorder them)
+            exprs.push(["-type f,d,l,s,f", "-type d,f,d -o -type l,l,p,b", "-perm u+r,g+w,u+r,o+x", "-printf '%p %s %p %u %p\\n'",
+                        "-name a -o -name b -o -name a -o -name c -o -name b", "-type s,p,l,d,f,c,b,s"][((k / 13) % 6) as usize].to_string());
         } else if k % 3 == 0 {
             let n = 4 + rng.below(10);
             let parts: Vec<String> = (0..n).map(|_| match rng.below(7) {
